@@ -39,6 +39,7 @@ type Cfg struct {
 	Truncate        bool
 	TruncCancel     []int // C07: additionally offer truncations cancelled at the k-th context poll (once per node)
 	Wait            bool  // offer (once) the event "five minutes pass" while some vertex is parked
+	DeliverCancel   []int // additionally offer each first delivery with a context cancelled from its k-th poll on (the vertex may be delivered again normally)
 	ProposeCancel   []int // additionally offer each proposal with a context that reports cancellation from its k-th poll on (once per transaction)
 	Tick            bool
 	Dup             bool // allow one duplicate delivery per (node, vertex)
@@ -199,6 +200,11 @@ func (m *Model) Enabled() []string {
 			if d == 0 || (m.Cfg.Dup && d == 1) {
 				out = append(out, ev("D", i, k))
 			}
+			if d == 0 && !m.cancelTried[fmt.Sprintf("D%d/%d", i, k)] {
+				for _, c := range m.Cfg.DeliverCancel {
+					out = append(out, ev("DC", i, k, c))
+				}
+			}
 		}
 	}
 	for _, s := range m.Cfg.Crafted {
@@ -299,6 +305,14 @@ func (m *Model) Apply(e string) string {
 			m.lastNew = &vv
 		}
 		return world.ErrClass(err)
+	case "DC":
+		// a gossip delivery whose caller goes away: the vertex may arrive again later
+		i, _ := strconv.Atoi(p[1])
+		k, _ := strconv.Atoi(p[2])
+		c, _ := strconv.Atoi(p[3])
+		m.cancelTried[fmt.Sprintf("D%d/%d", i, k)] = true
+		m.noteBudget(i)
+		return world.ErrClass(m.W.Deliver(world.NewCountCtx(c), i, m.produced[k]))
 	case "D":
 		i, _ := strconv.Atoi(p[1])
 		k, _ := strconv.Atoi(p[2])
